@@ -62,6 +62,9 @@ def run(ctx):
             and st.value.value == 0]
     zok = zero and all(("isnone", val_p, True) in facts(cfg, n)
                        for st in zero for n in cfg.nodes_of(st))
+    if not zok:
+        from ..core.astutil import none_to_default
+        zok = any(none_to_default(st, val_p, 0) for st in ast.walk(f.node))
     if zok:
         ctx.ok("C18.R1", "ionice:none-is-0", sample="value is None -> 0")
     else:
@@ -78,8 +81,10 @@ def run(ctx):
     ok = False
     for n in fcfg.nodes:
         if n.kind == "raise" and "ValueError" in norm_stmt(n.stmt):
-            g = [(norm_stmt(e).replace(" ", ""), p) for e, p, _ in fcfg.guards(n)]
-            if ("ioclassisNone", True) in g and ("valueisnotNone", True) in g:
+            fparams = [a.arg for a in fe.node.args.args if a.arg != "self"]
+            fs = facts(fcfg, n)
+            if len(fparams) >= 2 and ("isnone", fparams[0], True) in fs \
+                    and ("isnone", fparams[1], False) in fs:
                 ok = True
     if ok:
         ctx.ok("C18.R1", "ionice:level-without-class", sample="ioclass is None and value is not "
@@ -143,9 +148,12 @@ def run(ctx):
                  "raises ValueError")
     fa = repo.func("psutil", "Process.cpu_affinity")
     facfg = A.cfg(fa)
+    cp = [a.arg for a in fa.node.args.args if a.arg != "self"]
+    cp = cp[0] if cp else "cpus"
     el = [st for st in ast.walk(fa.node) if isinstance(st, ast.Assign)
-          and dotted(st.targets[0]) == "cpus" and "_get_eligible_cpus" in norm_stmt(st.value)]
-    eok = el and all(("truthy", "cpus", False) in facts(facfg, n)
+          and dotted(st.targets[0]) == cp
+          and "_get_eligible_cpus" in norm_stmt(deref(fa.node, st.value))]
+    eok = el and all(("truthy", cp, False) in facts(facfg, n)
                      for st in el for n in facfg.nodes_of(st))
     if eok:
         ctx.ok("C18.R1", "affinity:empty-list", sample="not cpus -> _get_eligible_cpus()")
